@@ -478,7 +478,19 @@ def set_stress_case(rng):
     k = rng.randint(1, min(n + 1, 4))
     rest = rng.random() < 0.5
     pats = []
-    if rng.random() < 0.35:
+    if rng.random() < 0.15:
+        # wildcard pressure: `_` claims an element like any other pattern, with and without `..`; the collection has one
+        # element fewer than, as many as, or one more than the patterns, and the other patterns are satisfiable
+        k = rng.randint(1, 4)
+        nw = rng.randint(1, k)
+        n = max(0, k + rng.choice([-1, -1, 0, 1]))
+        vals = [rng.randint(0, 5) for _ in range(n)]
+        own = rng.sample(vals, min(k - nw, n))
+        pats = ["_"] * nw + [rng.choice(["== %d" % v, str(v), "> %d" % (v - 1)]) for v in own]
+        pats += ["> -1"] * (k - len(pats))
+        rng.shuffle(pats)
+        k = 0
+    elif rng.random() < 0.35:
         # matching by construction, in the order that is worst for a greedy or partially-undone search: 4-6 distinct
         # values; every pattern is given its own element, general patterns (matching many elements) are written
         # first, the specific ones (matching exactly one) last; the elements are shuffled
